@@ -173,7 +173,8 @@ class Scanner(Interp):
                     raise Raise(LIB, node, self.where(node, frame))
                 st = min(nxt)
             avail = span.fields['stop'] - st
-            self.event('decode', st, 'info' if info_only else 'full', kwargs.get('start_signature', 'DEFAULT'), getattr(self.stream, 'last_found', None))
+            self.event('decode', st, 'info' if info_only else 'full', kwargs.get('start_signature', 'DEFAULT'), getattr(self.stream, 'last_found', None),
+                       kwargs.get('file_path', args[1] if len(args) > 1 else None))
             mgr = callee.recv.fields.get('compiled_template_manager') if isinstance(callee, UnknownMethod) and isinstance(callee.recv, Obj) else None
             if isinstance(mgr, Obj):
                 # what the decoder's compiled-template cache holds when this decode starts (C20.R2)
@@ -211,6 +212,19 @@ class Scanner(Interp):
 
     def on_while(self, node, frame):
         return self.unroll_while(node, frame, 400)
+
+    def ev_Yield(self, e, frame):
+        # a message is handed out: its bytes are taken as they are now, and the consumer then does with the object what it likes
+        # (here: empties its bytes) - the scan may not depend on it afterwards
+        v = self.ev(e.value, frame) if e.value is not None else None
+        span = None
+        if isinstance(v, Obj) and isinstance(v.fields.get('serialized_bytes'), Obj):
+            sb = v.fields['serialized_bytes']
+            span = (sb.fields.get('start'), sb.fields.get('stop'))
+        self.event('yield', v, span)
+        if isinstance(v, Obj) and 'serialized_bytes' in v.fields:
+            v.fields['serialized_bytes'] = Obj('Span', {'start': 0, 'stop': 0, 'open_end': False})
+        return None
 
 
 def scenario():
@@ -315,7 +329,7 @@ def rule_r1(repo, tier='quick'):
                 msgs, stream = make()
                 it = Scanner(repo, msgs, stream)
                 res = it.run_function(fi, lambda: {'decoder': Obj('DecoderStub', {}), 's': stream, 'info_only': info_only, 'continue_on_error': cont,
-                                                   'filter_expr': 'EXPR' if use_filter else None, 'args': (), 'kwargs': {}})
+                                                   'filter_expr': 'EXPR' if use_filter else None, 'args': (), 'kwargs': {'file_path': 'FILE'}})
                 name = '%s, %s, %s' % ('info-only' if info_only else 'full', 'filter' if use_filter else 'no filter', 'continue on error' if cont else 'stop on error')
                 if sname != 'curated':
                     name = 'stream [%s]: %s' % (sname, name)
@@ -329,9 +343,9 @@ def rule_r1(repo, tier='quick'):
                 ys = []
                 for e in r.events:
                     if e[0] == 'yield':
-                        m = e[1]
-                        sb = m.fields.get('serialized_bytes')
-                        ys.append((m.fields['__start'], sb.fields['start'] if isinstance(sb, Obj) else None, sb.fields['stop'] if isinstance(sb, Obj) else None, m.fields['__mode']))
+                        # (the bytes of the message as they are when it is handed out - the consumer may do with it what it likes)
+                        m, span = e[1], (e[2] if len(e) > 2 else None)
+                        ys.append((m.fields['__start'], span[0] if span else None, span[1] if span else None, m.fields['__mode']))
                 tabs = [(e[1], e[2]) for e in r.events if e[0] == 'tables']
                 gexc = None if r.ok else r.exc.cls
                 key = 'generate_bufr_message:%s:%s' % ('info' if info_only else 'full', 'filter' if use_filter else 'nofilter')
@@ -347,6 +361,10 @@ def rule_r1(repo, tier='quick'):
                     rr.fail(key + ':yields', fi.where, '%s: yields %s; the stream contains %s' % (name, ys, wy), witness={'scenario': name})
                 if (gexc is None) != (wexc is None):
                     rr.fail(key + ':exception', fi.where, '%s: ends with %s (expected %s)' % (name, gexc or 'normal return', wexc or 'normal return'), witness={'scenario': name})
+                lost = [e for e in r.events if e[0] == 'decode' and len(e) > 5 and e[5] != 'FILE']
+                if lost:
+                    rr.fail(key + ':options', fi.where, '%s: the decode at octet %s (%s pass) is not given the file_path the scan was called with (got %r): every decoding pass of a '
+                            'scan takes the caller\'s options' % (name, lost[0][1], lost[0][2], lost[0][5]), witness={'scenario': name})
                 if tabs != wtab:
                     rr.fail(key + ':tables', fi.where, '%s: table definitions taken from %s (expected %s: only from a fully decoded definition message)' % (name, tabs, wtab),
                             witness={'scenario': name})
